@@ -22,6 +22,8 @@ def generate(rng, tier):
         T, rate, accel, jerk, fam = ebbgen.gen_t3(rng)
         acc = ebbgen.pick_acc(rng)
         amb = rng.randrange(len(AMBIENT))
+        if rng.random() < 0.15:
+            acc = ebbgen.boundary_acc(rng, ebbgen.t3_total0(T, rate, accel, jerk)); fam += "/total-on-step-boundary"
         if jerk == 0:
             cases.append({"kind": "z", "T": T, "rate": rate, "accel": accel, "jerk": 0, "acc": acc, "amb": amb, "family": fam})
         else:
